@@ -41,8 +41,12 @@ Record fence_table := mkFT {
 Definition pinned_table : fence_table := mkFT Full CompilerOnly Full Full Full CompilerOnly Full.
 
 (** the placement is accepted iff a [Full] fence separates pop's store to top from its load
-    of base (see [C02_tso_fence_needed] for what happens otherwise) *)
-Definition fence_table_ok (t : fence_table) : bool := is_full (f_pop_rw t).
+    of base (see [C02_tso_fence_needed] for what happens otherwise), take's store to base from
+    its load of top, and the critical-section stores from the unlocking store (on x86 all three
+    are the xchg of myth_rwbarrier).  The other positions are arbitrary.  [C02_tso_sound]
+    (Wsq/TsoSound.v) shows that every accepted placement keeps the deque invariant under TSO. *)
+Definition fence_table_ok (t : fence_table) : bool :=
+  is_full (f_pop_rw t) && is_full (f_take_rw t) && is_full (f_unlock t).
 
 (** * Buffer primitives *)
 Definition view (m : mem) (buf : list wr) : mem := apply_wrs m buf.
